@@ -1,6 +1,7 @@
 package props
 
 import (
+	"sync/atomic"
 	"bytes"
 	"encoding/json"
 	"fmt"
@@ -194,6 +195,9 @@ func c07Dump(seq gts.Sequence) string {
 
 // c07Scan scans data under a watchdog.
 func c07Scan(data []byte, mode string, cut int) c07Out {
+	if c07Hung.Load() {
+		return c07Out{hung: true} // the lock is gone for good (see c07Hung); c07Eval no longer judges anything
+	}
 	seqioMu.Lock()
 	done := make(chan c07Out, 1)
 	go func() {
@@ -244,6 +248,7 @@ func c07Scan(data []byte, mode string, cut int) c07Out {
 	case <-time.After(20 * time.Second):
 		// the goroutine cannot be killed and still holds the parser state: the lock stays taken
 		// for this process on purpose; the caller reports the hang and the run ends.
+		c07Hung.Store(true)
 		return c07Out{hung: true}
 	}
 }
@@ -563,7 +568,15 @@ func c07Baseline(seed string, crlf bool) c07Out {
 	return o
 }
 
+// c07Hung is set once a parser call has outlived its watchdog: its goroutine cannot be killed and keeps the
+// parser lock, so nothing further can be judged in this process - the remaining cases are skipped (the hang is
+// reported, the run is not exhaustive) instead of queueing up behind the lock for ever.
+var c07Hung atomic.Bool
+
 func c07Eval(c c07Case) (ok bool, sig, detail string) {
+	if c07Hung.Load() {
+		return true, "", ""
+	}
 	c07LoadSeeds()
 	if c.Kind == "string" {
 		return c07EvalString(c)
@@ -748,6 +761,7 @@ func c07EvalString(c c07Case) (ok bool, sig, detail string) {
 			return false, "panic:" + c.Parser, fmt.Sprintf("%s parser on %q panics: %s", c.Parser, in, msg)
 		}
 	case <-time.After(20 * time.Second):
+		c07Hung.Store(true)
 		return false, "hang:" + c.Parser, fmt.Sprintf("%s parser on %q did not return within 20 s", c.Parser, in)
 	}
 	return true, "", ""
@@ -776,6 +790,9 @@ func init() {
 			}
 			// T4: work proportional to the input (deterministic allocation counters; runs before anything parallel)
 			for _, sh := range c07ScaleShapes {
+				if c07Hung.Load() {
+					break
+				}
 				cs := c07ScaleCase{Kind: "scale", Shape: sh}
 				r.Evals.Add(3)
 				r.Journal(cs)
@@ -1168,7 +1185,7 @@ func init() {
 				"a stream cut inside its first record may yield zero records with or without an error",
 				strconv.Itoa(len(c07Names)) + " seeds; qualifier registries are warmed by one scan of every seed so that outcomes do not depend on scan history",
 			}
-			return complete
+			return complete && !c07Hung.Load()
 		},
 		Replay: func(raw json.RawMessage) (bool, string, string) {
 			var c c07Case
